@@ -59,7 +59,7 @@ def sigfn_for(which):
     def f(cfg):
         if which in ("dp", "prg"):
             return "move=%s|outl=%d" % (which, cfg["outl"])
-        return "move=subtree|%s" % ("n<=2" if cfg["n"] <= 2 else "n>=3")
+        return "move=subtree|%s" % ("n<=2" if (cfg["n"] <= 2 or cfg["np"] == 1) else "n>=3")
     return f
 
 
@@ -92,6 +92,8 @@ def run(corrupt=None):
                 for w in ("run", "lib"):
                     cfgs.append(dict(base, n=n, kernel=k, wiring=w, outl=outl))
     cfgs.append(dict(base, n=2, kernel="semi", wiring="run", outl=True, dist="real", alpha=0.3))
+    for outl in (False, True):   # one particle: the move must return its input (all data kept) on 3 points too
+        cfgs.append(dict(base, n=3, kernel="semi", wiring="run", outl=outl, np=1))
     if thorough:
         for k in ("boot", "semi", "full"):
             for outl in (False, True):
